@@ -804,6 +804,16 @@ func (x *Exec) builtin(b *ssa.Builtin, args []Value) Value {
 				}
 			}
 			return nil
+		case Slice:
+			// zero every element (slices.Delete clears the tail it drops)
+			if sig, ok := b.Type().(*types.Signature); ok && sig.Params().Len() == 1 {
+				if st, ok := sig.Params().At(0).Type().Underlying().(*types.Slice); ok {
+					for i := range a.Data {
+						x.assign(&a.Data[i], zero(st.Elem()))
+					}
+					return nil
+				}
+			}
 		}
 	case "print", "println":
 		return nil
